@@ -91,7 +91,7 @@ seq_t dtw_distance(seq_t *s1, idx_t l1,
     idx_t dl;
     // DTWPruned
     idx_t sc = 0;
-    idx_t ec = 0;
+    idx_t ec = settings->psi_2b;  // the first row can start at zero cost in all columns up to psi_2b
     bool smaller_found;
     idx_t ec_next;
     // signal(SIGINT, dtw_int_handler); // not compatible with OMP
@@ -252,7 +252,9 @@ seq_t dtw_distance(seq_t *s1, idx_t l1,
                 #ifdef DTWDEBUG
                 printf("dtw[%zu] = %f > %f\n", curidx, dtw[curidx], max_dist);
                 #endif
-                if (!smaller_found) {
+                if (!smaller_found && i >= settings->psi_1b) {
+                    // (while the next row can still start at zero cost in the first column,
+                    // its first columns cannot be skipped)
                     sc = j + 1;
                 }
                 if (j >= ec) {
@@ -329,7 +331,7 @@ seq_t dtw_distance_ndim(seq_t *s1, idx_t l1,
     idx_t dl;
     // DTWPruned
     idx_t sc = 0;
-    idx_t ec = 0;
+    idx_t ec = settings->psi_2b;  // the first row can start at zero cost in all columns up to psi_2b
     bool smaller_found;
     idx_t ec_next;
     // signal(SIGINT, dtw_int_handler); // not compatible with OMP
@@ -497,7 +499,9 @@ seq_t dtw_distance_ndim(seq_t *s1, idx_t l1,
                 #ifdef DTWDEBUG
                 printf("dtw[%zu] = %f > %f\n", curidx, dtw[curidx], max_dist);
                 #endif
-                if (!smaller_found) {
+                if (!smaller_found && i >= settings->psi_1b) {
+                    // (while the next row can still start at zero cost in the first column,
+                    // its first columns cannot be skipped)
                     sc = j + 1;
                 }
                 if (j >= ec) {
@@ -570,7 +574,7 @@ seq_t dtw_distance_euclidean(seq_t *s1, idx_t l1,
     idx_t dl;
     // DTWPruned
     idx_t sc = 0;
-    idx_t ec = 0;
+    idx_t ec = settings->psi_2b;  // the first row can start at zero cost in all columns up to psi_2b
     bool smaller_found;
     idx_t ec_next;
     // signal(SIGINT, dtw_int_handler); // not compatible with OMP
@@ -724,7 +728,9 @@ seq_t dtw_distance_euclidean(seq_t *s1, idx_t l1,
                 #ifdef DTWDEBUG
                 printf("dtw[%zu] = %f > %f\n", curidx, dtw[curidx], max_dist);
                 #endif
-                if (!smaller_found) {
+                if (!smaller_found && i >= settings->psi_1b) {
+                    // (while the next row can still start at zero cost in the first column,
+                    // its first columns cannot be skipped)
                     sc = j + 1;
                 }
                 if (j >= ec) {
@@ -798,7 +804,7 @@ seq_t dtw_distance_ndim_euclidean(seq_t *s1, idx_t l1,
     idx_t dl;
     // DTWPruned
     idx_t sc = 0;
-    idx_t ec = 0;
+    idx_t ec = settings->psi_2b;  // the first row can start at zero cost in all columns up to psi_2b
     bool smaller_found;
     idx_t ec_next;
     // signal(SIGINT, dtw_int_handler); // not compatible with OMP
@@ -960,7 +966,9 @@ seq_t dtw_distance_ndim_euclidean(seq_t *s1, idx_t l1,
                 #ifdef DTWDEBUG
                 printf("dtw[%zu] = %f > %f\n", curidx, dtw[curidx], max_dist);
                 #endif
-                if (!smaller_found) {
+                if (!smaller_found && i >= settings->psi_1b) {
+                    // (while the next row can still start at zero cost in the first column,
+                    // its first columns cannot be skipped)
                     sc = j + 1;
                 }
                 if (j >= ec) {
@@ -1058,7 +1066,7 @@ seq_t dtw_warping_paths_ndim(seq_t *wps,
     }
     // DTWPruned
     idx_t sc = 0;
-    idx_t ec = 0;
+    idx_t ec = settings->psi_2b;  // the first row can start at zero cost in all columns up to psi_2b
     idx_t ec_next;
     bool smaller_found;
 
@@ -1147,7 +1155,7 @@ seq_t dtw_warping_paths_ndim(seq_t *wps,
                 smaller_found = true;
                 ec_next = ci + 1;
             } else {
-                if (!smaller_found)
+                if (!smaller_found && ri >= settings->psi_1b)
                     sc = ci + 1;
                 if (ci >= ec)
                     break;
@@ -1197,7 +1205,7 @@ seq_t dtw_warping_paths_ndim(seq_t *wps,
                 smaller_found = true;
                 ec_next = ci + 1;
             } else {
-                if (!smaller_found)
+                if (!smaller_found && ri >= settings->psi_1b)
                     sc = ci + 1;
                 if (ci >= ec)
                     break;
@@ -1247,7 +1255,7 @@ seq_t dtw_warping_paths_ndim(seq_t *wps,
                 smaller_found = true;
                 ec_next = ci + 1;
             } else {
-                if (!smaller_found)
+                if (!smaller_found && ri >= settings->psi_1b)
                     sc = ci + 1;
                 if (ci >= ec)
                     break;
@@ -1307,7 +1315,7 @@ seq_t dtw_warping_paths_ndim(seq_t *wps,
                 smaller_found = true;
                 ec_next = ci + 1;
             } else {
-                if (!smaller_found)
+                if (!smaller_found && ri >= settings->psi_1b)
                     sc = ci + 1;
                 if (ci >= ec)
                     break;
@@ -1438,7 +1446,7 @@ seq_t dtw_warping_paths_ndim_euclidean(seq_t *wps,
                         DTWSettings *settings) {
     // DTWPruned
     idx_t sc = 0;
-    idx_t ec = 0;
+    idx_t ec = settings->psi_2b;  // the first row can start at zero cost in all columns up to psi_2b
     idx_t ec_next;
     bool smaller_found;
 
@@ -1522,7 +1530,7 @@ seq_t dtw_warping_paths_ndim_euclidean(seq_t *wps,
                 smaller_found = true;
                 ec_next = ci + 1;
             } else {
-                if (!smaller_found)
+                if (!smaller_found && ri >= settings->psi_1b)
                     sc = ci + 1;
                 if (ci >= ec)
                     break;
@@ -1573,7 +1581,7 @@ seq_t dtw_warping_paths_ndim_euclidean(seq_t *wps,
                 smaller_found = true;
                 ec_next = ci + 1;
             } else {
-                if (!smaller_found)
+                if (!smaller_found && ri >= settings->psi_1b)
                     sc = ci + 1;
                 if (ci >= ec)
                     break;
@@ -1624,7 +1632,7 @@ seq_t dtw_warping_paths_ndim_euclidean(seq_t *wps,
                 smaller_found = true;
                 ec_next = ci + 1;
             } else {
-                if (!smaller_found)
+                if (!smaller_found && ri >= settings->psi_1b)
                     sc = ci + 1;
                 if (ci >= ec)
                     break;
@@ -1685,7 +1693,7 @@ seq_t dtw_warping_paths_ndim_euclidean(seq_t *wps,
                 smaller_found = true;
                 ec_next = ci + 1;
             } else {
-                if (!smaller_found)
+                if (!smaller_found && ri >= settings->psi_1b)
                     sc = ci + 1;
                 if (ci >= ec)
                     break;
